@@ -46,7 +46,23 @@ def analyse(prop, root):
     return ctx, mod
 
 
+def _watchdog(seconds):
+    """An analysis that does not finish is never a verdict: exit 2 after `seconds`."""
+    import signal
+
+    def _alarm(signum, frame):
+        print("ANALYSIS-ERROR analysis did not finish within %d s" % seconds)
+        sys.stdout.flush()
+        os._exit(2)
+    try:
+        signal.signal(signal.SIGALRM, _alarm)
+        signal.alarm(seconds)
+    except (ValueError, AttributeError):
+        pass
+
+
 def main(argv=None):
+    _watchdog(int(os.environ.get("VERIF_TIMEOUT", "900")))
     ap = argparse.ArgumentParser()
     ap.add_argument("prop")
     ap.add_argument("--tier", default=os.environ.get("VERIF_TIER", "quick"), choices=["quick", "thorough"])
